@@ -161,6 +161,8 @@ func encValDepth(sb *strings.Builder, v interface{}, depth int) {
 		fmt.Fprintf(sb, "Iu32:%d", x)
 	case uint64:
 		fmt.Fprintf(sb, "Iu64:%d", x)
+	case uintptr:
+		fmt.Fprintf(sb, "Iup:%d", x)
 	case float64:
 		sb.WriteString("G" + hx([]byte(strconv.FormatFloat(x, 'f', -1, 64))))
 	case float32:
@@ -309,6 +311,9 @@ func (p *valParser) val() interface{} {
 		case "u64":
 			u, _ := strconv.ParseUint(f[1], 10, 64)
 			return uint64(u)
+		case "up":
+			u, _ := strconv.ParseUint(f[1], 10, 64)
+			return uintptr(u)
 		}
 	case 'G':
 		fl, _ := strconv.ParseFloat(string(unhx(t[1:])), 64)
